@@ -19,7 +19,8 @@
 (*  app   p c            append(p, c)                                       *)
 (*  aft   p c a          appendAfter(p, c, a)                               *)
 (*  det   p c            detach(p, c)                                       *)
-(*  free  o              free(o)                                            *)
+(*  free  o pa           free(o); pa = o's parent after the call            *)
+(*  bulk                 CreateDefaultScopes on an empty pool (carries st)  *)
 (*  ck                   checkpoint only                                    *)
 (*  find  s x r          Find(s, x) returned r (x: the expression bytes)    *)
 (*  reset                end of one case                                    *)
@@ -124,18 +125,17 @@ Parse(x) ==
                 ELSE IF x = <<>> \/ (segsOK /\ stubOK) \/ (hdr > 0 /\ body = <<>>) THEN "short" ELSE "garbage"
   IN [class |-> class, root |-> root, carets |-> carets, form |-> form, segs |-> segs]
 
-\* the child of scope sc named seg (0: none)
-Child(T, sc, seg) ==
-  LET ks == T.kids[sc]
-      M == {i \in 1..Len(ks) : T.nm[ks[i]] = seg} IN
-  IF M = {} THEN 0 ELSE ks[CHOOSE i \in M : \A j \in M : i <= j]
+\* the children of scope sc named seg.  ACPI forbids two objects of one name in a scope; should a tree hold such
+\* duplicates the rules designate any of them (the statement does not rank them), so every operator below is set-valued
+ChildSet(T, sc, seg) == {c \in Range(T.kids[sc]) : T.nm[c] = seg}
 
 RECURSIVE Up(_, _, _), Down(_, _, _), Search(_, _, _)
 Up(T, sc, k)       == IF k = 0 THEN sc ELSE IF T.par[sc] = 0 THEN 0 ELSE Up(T, T.par[sc], k - 1)       \* each '^' one level up
-Down(T, sc, segs)  == IF segs = <<>> THEN sc                                                          \* downward only
-                      ELSE LET c == Child(T, sc, Head(segs)) IN IF c = 0 THEN 0 ELSE Down(T, c, Tail(segs))
-Search(T, sc, seg) == LET c == Child(T, sc, seg) IN                                                   \* this scope, then each enclosing scope
-                      IF c # 0 THEN c ELSE IF T.par[sc] = 0 THEN 0 ELSE Search(T, T.par[sc], seg)
+Down(T, sc, segs)  == IF segs = <<>> THEN {sc}                                                        \* downward only
+                      ELSE LET C == ChildSet(T, sc, Head(segs)) IN
+                           IF C = {} THEN {0} ELSE UNION {Down(T, c, Tail(segs)) : c \in C}
+Search(T, sc, seg) == LET C == ChildSet(T, sc, seg) IN                                                \* this scope, then each enclosing scope
+                      IF C # {} THEN C ELSE IF T.par[sc] = 0 THEN {0} ELSE Search(T, T.par[sc], seg)
 
 \* the set of results ACPI's search rules allow for a well-formed expression P from scope sc (0 = not found)
 FindSpec(T, sc, P) ==
@@ -143,23 +143,18 @@ FindSpec(T, sc, P) ==
   IF start = 0 THEN {0}
   ELSE IF P.segs = <<>> THEN {start}
   ELSE IF ~P.root /\ P.carets = 0 /\ Len(P.segs) = 1
-       THEN IF P.form = "plain" THEN {Search(T, sc, P.segs[1])}
+       THEN IF P.form = "plain" THEN Search(T, sc, P.segs[1])
             \* a MultiNamePath with SegCount 1 is a single NameSeg and a multi-name encoding at once: either reading
-            ELSE {Search(T, sc, P.segs[1]), Down(T, sc, P.segs)}
-  ELSE {Down(T, start, P.segs)}
+            ELSE Search(T, sc, P.segs[1]) \cup Down(T, sc, P.segs)
+  ELSE Down(T, start, P.segs)
 
-RECURSIVE ReachFrom(_, _)
-ReachFrom(kids, F) == LET N == UNION {Range(kids[p]) : p \in F} IN IF N = {} THEN F ELSE F \cup ReachFrom(kids, N)
-
-\* the lookup domain: slot 1 is the live root and no scope holds two children with the same (valid) name
+\* the lookup domain: slot 1 is the live root (absolute paths start there); the scope is any live object - a node of
+\* the tree or of a detached subtree, whose top has no enclosing scope
 TreeOf(st) ==
   LET kids == [i \in 1..st.n |-> IF st.fr[i] = 1 THEN <<>> ELSE KidsOf(st, i)]
       rootOK == st.n >= 1 /\ st.fr[1] = 0 /\ st.par[1] = 0
-      reach == IF rootOK THEN ReachFrom(kids, {1}) ELSE {}
-      uniq == \A p \in reach : \A i, j \in 1..Len(kids[p]) :
-                 (i < j /\ IsSeg(st.nm[kids[p][i]])) => st.nm[kids[p][i]] # st.nm[kids[p][j]]
-  IN [par |-> st.par, kids |-> kids, nm |-> st.nm, reach |-> reach, dom |-> rootOK /\ uniq]
-T0 == [par |-> <<>>, kids |-> <<>>, nm |-> <<>>, reach |-> {}, dom |-> FALSE]
+  IN [par |-> st.par, kids |-> kids, nm |-> st.nm, live |-> LiveOf(st), dom |-> rootOK]
+T0 == [par |-> <<>>, kids |-> <<>>, nm |-> <<>>, live |-> {}, dom |-> FALSE]
 
 --------------------------------------------------------------------------
 (* Part 3: the monitor                                                     *)
@@ -233,21 +228,41 @@ MonDet(s, e) ==
   LET pre == e.p \in Live(s) /\ e.c \in Live(s) /\ s.par[e.c] = e.p
       s1 == IF pre THEN [s EXCEPT !.kids[e.p] = Remove(@, e.c), !.par[e.c] = 0, !.ck = FALSE] ELSE s
   IN Step(s1, << Chk(pre, NotEnabled("detach")), Chk(e.res = "ok", <<"detach: the call crashed">>) >>, e)
+\* free(o).  A childless object is unlinked from its parent and its slot becomes free.  An object that still has
+\* children must be refused (the API panics): freeing it would leave a freed object reachable from its children.  The
+\* refusal may or may not have unlinked o from its parent first (e.pa = o's parent after the call).
 MonFree(s, e) ==
-  LET pre == e.o \in Live(s) /\ s.kids[e.o] = <<>>
-      p == IF pre THEN s.par[e.o] ELSE 0
-      s0 == IF p # 0 THEN [s EXCEPT !.kids[p] = Remove(@, e.o)] ELSE s
-      s1 == IF pre THEN [s0 EXCEPT !.par[e.o] = 0, !.fr = @ \cup {e.o}, !.nm[e.o] = <<>>, !.ck = FALSE] ELSE s
-  IN Step(s1, << Chk(pre, NotEnabled("free")), Chk(e.res = "ok", <<"free: the call crashed">>) >>, e)
+  LET live == e.o \in Live(s)
+      leaf == live /\ s.kids[e.o] = <<>>
+      p == IF live THEN s.par[e.o] ELSE 0
+      s0 == IF p # 0 /\ (leaf \/ e.pa = 0) THEN [s EXCEPT !.kids[p] = Remove(@, e.o), !.par[e.o] = 0, !.ck = FALSE] ELSE s
+      s1 == IF leaf THEN [s0 EXCEPT !.fr = @ \cup {e.o}, !.nm[e.o] = <<>>, !.ck = FALSE] ELSE IF live THEN s0 ELSE s
+  IN Step(s1, << Chk(live, NotEnabled("free")),
+                 Chk(~leaf \/ e.res = "ok", <<"free: the call crashed">>),
+                 Chk(~live \/ leaf \/ (e.res = "panic" /\ e.pa \in {p, 0}),
+                     <<"free of an object that still has children must be refused, leaving it attached or detached", "result", e.res, "parent after", e.pa>>) >>, e)
+
+\* a bulk creation (CreateDefaultScopes on an empty pool): some sequence of creations and appends whose result
+\* is recorded in e.st; it has to be a well-formed tree, which becomes the specification state
+AbsOf(st) == [n |-> st.n, fr |-> FreedOf(st), par |-> st.par,
+              kids |-> [i \in 1..st.n |-> IF st.fr[i] = 1 THEN <<>> ELSE KidsOf(st, i)],
+              nm |-> [i \in 1..st.n |-> <<>>], ck |-> FALSE, T |-> T0]
+MonBulk(s, e) ==
+  LET ok == s.n = 0 /\ e.res = "ok" /\ e.st.n > 0 /\ FreedOf(e.st) = {} /\ WellFormed(e.st)
+  IN Step(IF ok THEN AbsOf(e.st) ELSE s,
+          << Chk(s.n = 0, NotEnabled("bulk creation")), Chk(e.res = "ok", <<"bulk creation: the call crashed">>),
+             Chk(ok, <<"bulk creation on an empty pool did not produce a well-formed tree without freed slots">>) >>, e)
 
 MonFind(s, e) ==
-  LET pre == s.ck /\ s.T.dom /\ e.s \in s.T.reach
+  LET pre == s.ck /\ s.T.dom /\ e.s \in s.T.live \cup {0}
       P == Parse(e.x)
-      allowed == IF ~pre \/ P.class = "garbage" THEN {} ELSE IF P.class = "short" THEN {0} ELSE FindSpec(s.T, e.s, P)
+      \* scope 0 is InvalidIndex (no scope at all): nothing is designated relative to it; Find merely has to return
+      free == ~pre \/ P.class = "garbage" \/ e.s = 0
+      allowed == IF free THEN {} ELSE IF P.class = "short" THEN {0} ELSE FindSpec(s.T, e.s, P)
   IN [s |-> s,
-      cs |-> << Chk(pre, <<"lookup outside the checked domain (no checkpoint, no live root in slot 1, duplicate sibling names, or scope not in the tree)", e.s>>),
+      cs |-> << Chk(pre, <<"lookup outside the checked domain (no checkpoint, no live root in slot 1, or scope not a live object)", e.s>>),
                 Chk(e.res = "ok", <<"Find crashed", "scope", e.s, "expression", e.x>>),
-                Chk(~pre \/ e.res # "ok" \/ P.class = "garbage" \/ e.r \in allowed,
+                Chk(free \/ e.res # "ok" \/ e.r \in allowed,
                     <<"Find returned a node the search rules do not designate", "scope", e.s, "expression", e.x,
                       "class", P.class, "returned", e.r, "allowed", SetToSortedSeq(allowed)>>) >>]
 
@@ -257,6 +272,7 @@ Mon(s, e) ==
     [] e.k = "aft"   -> MonAft(s, e)
     [] e.k = "det"   -> MonDet(s, e)
     [] e.k = "free"  -> MonFree(s, e)
+    [] e.k = "bulk"  -> MonBulk(s, e)
     [] e.k = "ck"    -> Step(s, <<>>, e)
     [] e.k = "find"  -> MonFind(s, e)
     [] e.k = "reset" -> [s |-> S0, cs |-> <<>>]
